@@ -17,8 +17,9 @@ MX == {"A", "B"}
 PeerOf(m) == IF m = "A" THEN "B" ELSE "A"
 RoleFor(resp) == IF resp = 1 THEN "init" ELSE "resp"
 
-VARIABLES mode, reg, wire, cur, errs, exited, stopAsked, sendLog, tapLog, delivered, mErr
-mvars == <<mode, reg, wire, cur, errs, exited, stopAsked, sendLog, tapLog, delivered, mErr>>
+VARIABLES mode, reg, wire, cur, errs, exited, stopAsked, sendLog, tapLog, delivered, inflight, mErr
+\* inflight[m]: segments handed to a receiver channel of m and not yet consumed by the protocol: <<pid, role, h>>
+mvars == <<mode, reg, wire, cur, errs, exited, stopAsked, sendLog, tapLog, delivered, inflight, mErr>>
 
 NoSeg == [pid |-> -1, resp |-> 0, len |-> 0, h |-> "", phase |-> "none"]
 
@@ -27,30 +28,32 @@ MInitVals(ma, mb) ==
     /\ reg = [m \in MX |-> {}] /\ wire = [m \in MX |-> <<>>] /\ cur = [m \in MX |-> NoSeg]
     /\ errs = [m \in MX |-> <<>>] /\ exited = [m \in MX |-> FALSE] /\ stopAsked = [m \in MX |-> FALSE]
     /\ sendLog = [m \in MX |-> <<>>] /\ tapLog = [m \in MX |-> <<>>] /\ delivered = [m \in MX |-> 0]
+    /\ inflight = [m \in MX |-> <<>>]
     /\ mErr = "none"
 MReset(ma, mb) ==
     /\ mode' = [m \in MX |-> IF m = "A" THEN ma ELSE mb]
     /\ reg' = [m \in MX |-> {}] /\ wire' = [m \in MX |-> <<>>] /\ cur' = [m \in MX |-> NoSeg]
     /\ errs' = [m \in MX |-> <<>>] /\ exited' = [m \in MX |-> FALSE] /\ stopAsked' = [m \in MX |-> FALSE]
     /\ sendLog' = [m \in MX |-> <<>>] /\ tapLog' = [m \in MX |-> <<>>] /\ delivered' = [m \in MX |-> 0]
+    /\ inflight' = [m \in MX |-> <<>>]
     /\ mErr' = "none"
 
-MFail(msg) == mErr' = msg /\ UNCHANGED <<mode, reg, wire, cur, errs, exited, stopAsked, sendLog, tapLog, delivered>>
+MFail(msg) == mErr' = msg /\ UNCHANGED <<mode, reg, wire, cur, errs, exited, stopAsked, sendLog, tapLog, delivered, inflight>>
 Seg(e) == [pid |-> e.pid, resp |-> e.resp, len |-> e.len, h |-> e.h]
 
 MReg(m, pid, role) ==
     /\ reg' = [reg EXCEPT ![m] = @ \cup {<<pid, role>>}]
-    /\ UNCHANGED <<mode, wire, cur, errs, exited, stopAsked, sendLog, tapLog, delivered, mErr>>
+    /\ UNCHANGED <<mode, wire, cur, errs, exited, stopAsked, sendLog, tapLog, delivered, inflight, mErr>>
 MUnreg(m, pid, role) ==
     /\ reg' = [reg EXCEPT ![m] = @ \ {<<pid, role>>}]
-    /\ UNCHANGED <<mode, wire, cur, errs, exited, stopAsked, sendLog, tapLog, delivered, mErr>>
+    /\ UNCHANGED <<mode, wire, cur, errs, exited, stopAsked, sendLog, tapLog, delivered, inflight, mErr>>
 
 \* Send: header+payload written in one Write under sendMutex.  raw = written by the driver's raw peer
 MSend(m, e, raw) ==
     IF ~raw /\ (e.len < 1 \/ e.len > 65535) THEN MFail("C09 Send: payload length outside 1..65535")
     ELSE /\ wire' = [wire EXCEPT ![m] = Append(@, Seg(e))]
          /\ sendLog' = [sendLog EXCEPT ![m] = Append(@, Seg(e))]
-         /\ UNCHANGED <<mode, reg, cur, errs, exited, stopAsked, tapLog, delivered, mErr>>
+         /\ UNCHANGED <<mode, reg, cur, errs, exited, stopAsked, tapLog, delivered, inflight, mErr>>
 
 MRecvHdr(m, e) ==
     LET w == wire[PeerOf(m)] IN
@@ -58,7 +61,7 @@ MRecvHdr(m, e) ==
     ELSE IF w = <<>> \/ Head(w).pid # e.pid \/ Head(w).resp # e.resp \/ Head(w).len # e.len
         THEN MFail("C09 RecvHdr: header is not that of the next segment the peer wrote")
     ELSE /\ cur' = [cur EXCEPT ![m] = [pid |-> e.pid, resp |-> e.resp, len |-> e.len, h |-> Head(w).h, phase |-> "hdr"]]
-         /\ UNCHANGED <<mode, reg, wire, errs, exited, stopAsked, sendLog, tapLog, delivered, mErr>>
+         /\ UNCHANGED <<mode, reg, wire, errs, exited, stopAsked, sendLog, tapLog, delivered, inflight, mErr>>
 
 MRecv(m, e) ==
     IF cur[m].phase # "hdr" \/ cur[m].pid # e.pid \/ cur[m].resp # e.resp \/ cur[m].len # e.len
@@ -67,7 +70,7 @@ MRecv(m, e) ==
     ELSE IF cur[m].h # e.h THEN MFail("C09 Recv: payload bytes differ from what the peer wrote")
     ELSE /\ cur' = [cur EXCEPT ![m].phase = "recv"]
          /\ wire' = [wire EXCEPT ![PeerOf(m)] = Tail(@)]
-         /\ UNCHANGED <<mode, reg, errs, exited, stopAsked, sendLog, tapLog, delivered, mErr>>
+         /\ UNCHANGED <<mode, reg, errs, exited, stopAsked, sendLog, tapLog, delivered, inflight, mErr>>
 
 MRoute(m, e) ==
     IF cur[m].phase # "recv" \/ cur[m].pid # e.pid THEN MFail("C09 Route: no segment in hand")
@@ -75,6 +78,9 @@ MRoute(m, e) ==
     ELSE IF mode[m] = "I" /\ e.resp = 0 THEN MFail("C17 Route: request routed on an initiator-only connection")
     ELSE IF mode[m] = "R" /\ e.resp = 1 THEN MFail("C17 Route: response routed on a responder-only connection")
     ELSE /\ cur' = [cur EXCEPT ![m].phase = "route"]
+         \* the hand-over follows; Deliver is logged after the channel send, so the consumer's
+         \* Consume may be logged first: the segment counts as in flight from here
+         /\ inflight' = [inflight EXCEPT ![m] = Append(@, <<e.pid, e.role, cur[m].h>>)]
          /\ UNCHANGED <<mode, reg, wire, errs, exited, stopAsked, sendLog, tapLog, delivered, mErr>>
 
 MDeliver(m, e) ==
@@ -83,32 +89,44 @@ MDeliver(m, e) ==
     ELSE IF e.role # RoleFor(cur[m].resp) THEN MFail("C09 Deliver: delivered to the wrong direction's receiver")
     ELSE /\ cur' = [cur EXCEPT ![m] = NoSeg]
          /\ delivered' = [delivered EXCEPT ![m] = @ + 1]
-         /\ UNCHANGED <<mode, reg, wire, errs, exited, stopAsked, sendLog, tapLog, mErr>>
+         /\ UNCHANGED <<mode, reg, wire, errs, exited, stopAsked, sendLog, tapLog, inflight, mErr>>
 
 MDrop(m, e) ==
     IF cur[m].phase # "route" THEN MFail("C09 Drop: segment was not routed")
     ELSE /\ cur' = [cur EXCEPT ![m].phase = "dropped"]
+         /\ inflight' = [inflight EXCEPT ![m] = SubSeq(@, 1, Len(@) - 1)]     \* it was never handed over
          /\ UNCHANGED <<mode, reg, wire, errs, exited, stopAsked, sendLog, tapLog, delivered, mErr>>
 
 MErrEv(m, e) ==
     /\ errs' = [errs EXCEPT ![m] = Append(@, e.text)]
-    /\ UNCHANGED <<mode, reg, wire, cur, exited, stopAsked, sendLog, tapLog, delivered, mErr>>
+    /\ UNCHANGED <<mode, reg, wire, cur, exited, stopAsked, sendLog, tapLog, delivered, inflight, mErr>>
 
 MStopCall(m) ==
     /\ stopAsked' = [stopAsked EXCEPT ![m] = TRUE]
-    /\ UNCHANGED <<mode, reg, wire, cur, errs, exited, sendLog, tapLog, delivered, mErr>>
+    /\ UNCHANGED <<mode, reg, wire, cur, errs, exited, sendLog, tapLog, delivered, inflight, mErr>>
 
 \* the read loop returned
 MExit(m) ==
     IF errs[m] = <<>> /\ ~stopAsked[m]
         THEN MFail("C09 Exit: the read loop ended without reporting an error (connection silently dead)")
     ELSE /\ exited' = [exited EXCEPT ![m] = TRUE]
-         /\ UNCHANGED <<mode, reg, wire, cur, errs, stopAsked, sendLog, tapLog, delivered, mErr>>
+         /\ UNCHANGED <<mode, reg, wire, cur, errs, stopAsked, sendLog, tapLog, delivered, inflight, mErr>>
+
+\* Consume: the protocol took a segment from its receiver channel; h = hash of the payload AS CONSUMED.
+\* It must be the oldest segment delivered to that receiver and still carry the bytes that were received.
+MConsume(m, e) ==
+    LET idx == {i \in DOMAIN inflight[m] : inflight[m][i][1] = e.pid /\ inflight[m][i][2] = e.role} IN
+    IF idx = {} THEN MFail("C09 Consume: a segment that was never delivered to this receiver")
+    ELSE LET i == CHOOSE j \in idx : \A k \in idx : j <= k IN
+         IF inflight[m][i][3] # e.h
+           THEN MFail("C09 Consume: payload changed between delivery and consumption (or order within the receiver)")
+         ELSE /\ inflight' = [inflight EXCEPT ![m] = SubSeq(@, 1, i - 1) \o SubSeq(@, i + 1, Len(@))]
+              /\ UNCHANGED <<mode, reg, wire, cur, errs, exited, stopAsked, sendLog, tapLog, delivered, mErr>>
 
 \* Wire: a segment parsed by the driver from the raw bytes m wrote (independent tap)
 MWire(m, e) ==
     /\ tapLog' = [tapLog EXCEPT ![m] = Append(@, Seg(e))]
-    /\ UNCHANGED <<mode, reg, wire, cur, errs, exited, stopAsked, sendLog, delivered, mErr>>
+    /\ UNCHANGED <<mode, reg, wire, cur, errs, exited, stopAsked, sendLog, delivered, inflight, mErr>>
 
 \* End(expect, n): expect = "clean" | "error" | "any"; n = number of deliveries the specification predicts (-1: not stated)
 MEnd(m, expect, n) ==
